@@ -1,3 +1,4 @@
+import MLPE.Proofs.Safe
 import MLPE.Proofs.EngTasks
 
 /-!
@@ -107,5 +108,19 @@ theorem C14_node_callback_failure_ends_the_task (c : Ctx) (s : St) (obs : List O
 /-- and when the callback does not suspend, the continuation runs on exactly the state the event was emitted in -/
 theorem C14_no_suspension_continues_at_once (c : Ctx) (s : St) (obs : List Obs) (frames : Nat → List Frame)
     (k : St → List Obs → Out) : cbThen c s obs frames 0 k = k s obs := rfl
+
+/-! ### Pipelines with switches: what the event manager is told, under every schedule -/
+
+/-- **C14 (switch pipelines)**: success is reported for a node only when the node has a value in the dataflow
+semantics; an error reported for a node is an exception its body raised on the declared arguments, or a collaborator's;
+the outcome reported by `on_pipeline_complete` is the output's value or an error with a cause -/
+theorem C14_switch_reports_are_truthful (P : Program) (val : Node → Option Val) (hsw : SwP P)
+    (hsol : SolutionSw P val) (s : St) (log : List Obs) (h : Exec P s log) :
+    (∀ n, Obs.ncomplete n none ∈ log → (val n).isSome = true) ∧
+    (∀ n e, Obs.ncomplete n (some e) ∈ log → (∃ k, P.body n (kwFrom P val n) 0 k = .raise e) ∨ CollabFails P e) ∧
+    (∀ v, Obs.pcomplete (.value v) ∈ log → val P.g.output = some v) ∧
+    (∀ e, Obs.pcomplete (.error e) ∈ log → ErrCause P val e) := by
+  have hall := (safe_exec hsw hsol h).2
+  exact ⟨fun n hm => hall _ hm, fun n e hm => hall _ hm, fun v hm => hall _ hm, fun e hm => hall _ hm⟩
 
 end MLPE.Eng
